@@ -1,5 +1,6 @@
 import ApolloModel.Spec.Introspection
 import ApolloModel.Proofs.Execution
+import ApolloModel.Proofs.IntrospectionFull3
 /-
 C24 — Introspection agrees with the reference implementation.
 
@@ -109,5 +110,186 @@ theorem concrete_roots_skipped (env : Env) (n : Nat) (path : Path) (objTy : Stri
     (hw : env.world.get? objId f0.fname = some .skip) :
     execField (completeValue env (n + 1)) env path objTy objId fdef (f0 :: rest) st = (.ok none, st) := by
   simp [execField, hargs, hname, hw, completeValue, tryNullify]
+
+/-! ## The whole introspection schema
+
+Model/IntrospectionFull.lean: every resolver of introspection/resolvers.rs (`SchemaMetaField`,
+`TypeDefResolver`, `TypeResolver`, `DirectiveResolver`, `FieldResolver`, `EnumValueResolver`,
+`InputValueResolver`), the `__schema` / `__type` / `__typename` meta-fields and `partial_execute`, run in
+the executor of C26 (generalised from a resolver table to resolver objects that see the coerced
+arguments).  Spec/IntrospectionFull.lean: specification §4.2 as a function schema → query → response.
+The stream c24.full evaluates the standard introspection query in this model and compares the whole
+response — every type and directive, in the order of the response — with `partial_execute`. -/
+section Full
+open Apollo.Spec.Introspection
+
+/-- `__Schema.types`: every named type of the schema (introspection types and the built-in scalars in
+    use included: they are in `schema.types`), in the order of `schema.types`. -/
+theorem schema_types_spec (s : ISchema) (args : AList Json) :
+    (resolveI s .schema "types" args).map (mapRV toSpec) =
+      some (.list (s.types.map fun d => .object "__Type" (.type (.named d.name)))) := by
+  rw [schema_spec]; simp [specField]
+
+/-- `__Schema.directives`, `queryType`, `mutationType`, `subscriptionType`, `description` -/
+theorem schema_roots_spec (s : ISchema) (args : AList Json) :
+    (resolveI s .schema "directives" args).map (mapRV toSpec) =
+        some (.list (s.directives.map fun d => .object "__Directive" (.directive d))) ∧
+    (resolveI s .schema "queryType" args).map (mapRV toSpec) = some (orNull (s.query.map fun n => typeValue s (.named n))) ∧
+    (resolveI s .schema "mutationType" args).map (mapRV toSpec) = some (orNull (s.mutation.map fun n => typeValue s (.named n))) ∧
+    (resolveI s .schema "subscriptionType" args).map (mapRV toSpec) = some (orNull (s.subscription.map fun n => typeValue s (.named n))) ∧
+    (resolveI s .schema "description" args).map (mapRV toSpec) = some (.leaf (str? s.description)) := by
+  refine ⟨?_, ?_, ?_, ?_, ?_⟩ <;> (rw [schema_spec]; simp [specField])
+
+/-- `__Type.fields(includeDeprecated)`: for OBJECT and INTERFACE the fields in definition order — the
+    deprecated ones only when `includeDeprecated` is true —, for every other kind null. -/
+theorem type_fields_spec (s : ISchema) (d : ITypeDef) (hd : s.typeDef? d.name = some d) (args : AList Json) :
+    (resolveI s (.typeDef d) "fields" args).map (mapRV toSpec) =
+      some (orNull ((fieldsOfKind d.kind).map fun fs =>
+        .list ((listed (·.deprecated) args fs).map fun x => .object "__Field" (.field x)))) := by
+  rw [typeDef_spec s d hd]; simp [specField, hd, namedTypeField]
+
+/-- `__Type.interfaces`: for OBJECT and INTERFACE the declared interfaces (interfaces implementing
+    interfaces included), otherwise null. -/
+theorem type_interfaces_spec (s : ISchema) (d : ITypeDef) (hd : s.typeDef? d.name = some d) (args : AList Json) :
+    (resolveI s (.typeDef d) "interfaces" args).map (mapRV toSpec) =
+      some (orNull ((interfacesOfKind d.kind).map (typeValues s))) := by
+  rw [typeDef_spec s d hd]; simp [specField, hd, namedTypeField]
+
+/-- `__Type.possibleTypes`: for INTERFACE the OBJECT types implementing it, for UNION its members,
+    otherwise null. -/
+theorem type_possible_types_spec (s : ISchema) (d : ITypeDef) (hd : s.typeDef? d.name = some d) (args : AList Json) :
+    (resolveI s (.typeDef d) "possibleTypes" args).map (mapRV toSpec) =
+      some (orNull ((possibleTypesOf s d).map (typeValues s))) := by
+  rw [typeDef_spec s d hd]; simp [specField, hd, namedTypeField]
+
+/-- `__Type.enumValues(includeDeprecated)`: for ENUM, otherwise null. -/
+theorem enum_values_spec (s : ISchema) (d : ITypeDef) (hd : s.typeDef? d.name = some d) (args : AList Json) :
+    (resolveI s (.typeDef d) "enumValues" args).map (mapRV toSpec) =
+      some (orNull ((enumValuesOfKind d.kind).map fun vs =>
+        .list ((listed (·.deprecated) args vs).map fun x => .object "__EnumValue" (.enumValue x)))) := by
+  rw [typeDef_spec s d hd]; simp [specField, hd, namedTypeField]
+
+/-- `__Type.inputFields(includeDeprecated)`: for INPUT_OBJECT, otherwise null. -/
+theorem input_fields_spec (s : ISchema) (d : ITypeDef) (hd : s.typeDef? d.name = some d) (args : AList Json) :
+    (resolveI s (.typeDef d) "inputFields" args).map (mapRV toSpec) =
+      some (orNull ((inputFieldsOfKind d.kind).map (inputValueList args))) := by
+  rw [typeDef_spec s d hd]; simp [specField, hd, namedTypeField]
+
+/-- `kind`, `name`, `description`, `specifiedByURL`, `ofType` of a named type -/
+theorem named_type_scalars_spec (s : ISchema) (d : ITypeDef) (hd : s.typeDef? d.name = some d) (args : AList Json) :
+    (resolveI s (.typeDef d) "kind" args).map (mapRV toSpec) = some (.leaf (.str (kindName d.kind))) ∧
+    (resolveI s (.typeDef d) "name" args).map (mapRV toSpec) = some (.leaf (.str d.name)) ∧
+    (resolveI s (.typeDef d) "description" args).map (mapRV toSpec) = some (.leaf (str? d.description)) ∧
+    (resolveI s (.typeDef d) "specifiedByURL" args).map (mapRV toSpec) = some (.leaf (str? (specifiedByOfKind d.kind))) ∧
+    (resolveI s (.typeDef d) "ofType" args).map (mapRV toSpec) = some (.leaf .null) := by
+  refine ⟨?_, ?_, ?_, ?_, ?_⟩ <;> (rw [typeDef_spec s d hd]; simp [specField, hd, namedTypeField])
+
+/-- a wrapping type: `kind` LIST / NON_NULL, `ofType` the wrapped type, every other field null -/
+theorem wrapping_type_spec (s : ISchema) (t : Ty) (ht : ∀ n, t ≠ .named n) (f : String) (args : AList Json) :
+    (resolveI s (.typeRef t) f args).map (mapRV toSpec) = specField asWritten s (.type (embed t)) f args :=
+  typeRef_spec s t ht f args
+
+/-- `__Directive`: `name`, `description`, `locations`, `args(includeDeprecated)`, `isRepeatable` -/
+theorem directives_spec (s : ISchema) (d : IDirective) (args : AList Json) :
+    (resolveI s (.directive d) "args" args).map (mapRV toSpec) = some (inputValueList args d.args) ∧
+    (resolveI s (.directive d) "locations" args).map (mapRV toSpec) = some (.list (d.locations.map fun l => .leaf (.str l))) ∧
+    (resolveI s (.directive d) "isRepeatable" args).map (mapRV toSpec) = some (.leaf (.bool d.repeatable)) ∧
+    (resolveI s (.directive d) "name" args).map (mapRV toSpec) = some (.leaf (.str d.name)) ∧
+    (resolveI s (.directive d) "description" args).map (mapRV toSpec) = some (.leaf (str? d.description)) := by
+  refine ⟨?_, ?_, ?_, ?_, ?_⟩ <;> (rw [directive_spec]; simp [specField])
+
+/-- `__Field`: `args(includeDeprecated)`, `type`, `isDeprecated`, `deprecationReason` (the reason
+    given, else the default of `@deprecated(reason:)`, "No longer supported") -/
+theorem field_args_spec (s : ISchema) (hdep : deprecatedIsBuiltin s = true) (d : IField) (args : AList Json) :
+    (resolveI s (.field d) "args" args).map (mapRV toSpec) = some (inputValueList args d.args) ∧
+    (resolveI s (.field d) "type" args).map (mapRV toSpec) = some (typeValue s (embed d.ty)) ∧
+    (resolveI s (.field d) "isDeprecated" args).map (mapRV toSpec) = some (.leaf (.bool (isDeprecated d.deprecated))) ∧
+    (resolveI s (.field d) "deprecationReason" args).map (mapRV toSpec) = some (.leaf (reasonOf d.deprecated)) := by
+  refine ⟨?_, ?_, ?_, ?_⟩ <;> (rw [field_spec s hdep]; simp [specField])
+
+/-- `__InputValue`: `type`, `defaultValue` (THE LITERAL AS WRITTEN), deprecation -/
+theorem input_value_spec (s : ISchema) (hdep : deprecatedIsBuiltin s = true) (d : IInputValue) (args : AList Json) :
+    (resolveI s (.inputValue d) "type" args).map (mapRV toSpec) = some (typeValue s (embed d.ty)) ∧
+    (resolveI s (.inputValue d) "defaultValue" args).map (mapRV toSpec) = some (.leaf (str? (d.default.map printValue))) ∧
+    (resolveI s (.inputValue d) "isDeprecated" args).map (mapRV toSpec) = some (.leaf (.bool (isDeprecated d.deprecated))) ∧
+    (resolveI s (.inputValue d) "deprecationReason" args).map (mapRV toSpec) = some (.leaf (reasonOf d.deprecated)) := by
+  refine ⟨?_, ?_, ?_, ?_⟩ <;> (rw [inputValue_spec s hdep]; simp [specField, asWritten])
+
+/-- `__EnumValue` -/
+theorem enum_value_spec (s : ISchema) (hdep : deprecatedIsBuiltin s = true) (d : IEnumValue) (f : String) (args : AList Json) :
+    (resolveI s (.enumValue d) f args).map (mapRV toSpec) = specField asWritten s (.enumValue d) f args :=
+  enumValue_spec s hdep d f args
+
+/-- FIELD BY FIELD, all at once: every resolver object the executor can meet, every field name, all
+    coerced arguments. -/
+theorem resolvers_eq_spec (s : ISchema) (hdep : deprecatedIsBuiltin s = true) (o : IObj) (ho : ObjOk s o) (f : String)
+    (args : AList Json) :
+    (resolveI s o f args).map (mapRV toSpec) = specField asWritten s (toSpec o) f args :=
+  resolve_spec s hdep o ho f args
+
+/-- THE WHOLE RESPONSE (`defaultValue` = the literal as written): for every schema with distinct type
+    names whose `@deprecated` is the built-in directive, every introspection query — any selection
+    shape — and every fuel, the modelled `partial_execute` returns the response the specification
+    prescribes. -/
+theorem introspection_eq_spec (s : ISchema) (hu : typeNamesDistinct s = true) (hdep : deprecatedIsBuiltin s = true)
+    (fuel cfuel : Nat) (frags : AList Frag) (vars : AList Json) (sels : List Sel) :
+    partialExecute fuel cfuel s frags vars sels = specResponse asWritten fuel cfuel s frags vars sels :=
+  partialExecute_eq_spec s hu hdep fuel cfuel frags vars sels
+
+/-- `defaultValue`: the code prints the literal AS WRITTEN, the reference the printed COERCED value
+    (`coerceDefault`: one item at a list type becomes a list, input objects get the defaults of the
+    fields left out, in definition order; `refPrint` escapes every control character).  The two agree
+    whenever the default is already in canonical form (a decidable check). -/
+theorem default_value_spec (fmtFloat : String → String) (dfuel : Nat) (s : ISchema) (v : IInputValue)
+    (h : canonicalDefault fmtFloat dfuel s v = true) : asWritten s v = printedCoerced fmtFloat dfuel s v :=
+  default_value_canonical fmtFloat dfuel s v h
+
+/-- THE WHOLE RESPONSE WITH THE REFERENCE'S `defaultValue`, on schemas all of whose defaults are
+    written in canonical form (what the generator of the check produces). -/
+theorem introspection_eq_reference_on_canonical_defaults (fmtFloat : String → String) (dfuel : Nat) (s : ISchema)
+    (hu : typeNamesDistinct s = true) (hdep : deprecatedIsBuiltin s = true)
+    (hcan : defaultsCanonical fmtFloat dfuel s = true)
+    (fuel cfuel : Nat) (frags : AList Frag) (vars : AList Json) (sels : List Sel) :
+    partialExecute fuel cfuel s frags vars sels =
+      specResponse (printedCoerced fmtFloat dfuel) fuel cfuel s frags vars sels :=
+  partialExecute_eq_spec_canonical fmtFloat dfuel s hu hdep hcan fuel cfuel frags vars sels
+
+/-! the two known findings, kernel-evaluated on the model:
+    `input In { x: Int, y: Int, z: Int = 5 }`, `f(a: Float = 1.0, b: [Int] = 1, c: In = {y: 2, x: 1}, t: String = "tab<TAB>!")` -/
+def wIn : ITypeDef := { name := "In", description := none, kind := .inputObject [ivNo "x" (.named "Int") none, ivNo "y" (.named "Int") none, ivNo "z" (.named "Int") (some (.int 5))] }
+def wSchema : ISchema := apolloSchema { description := none, query := some "Query", mutation := none, subscription := none, types := [wIn], directives := [] }
+/-- the reference prints the number `1.0` as `1` -/
+def wFmt (t : String) : String := if t == "1.0" then "1" else t
+
+/-- finding `default-value-printed-as-written` -/
+theorem default_value_printed_as_written :
+    asWritten wSchema (ivNo "a" (.named "Float") (some (.float "1.0"))) = some "1.0" ∧
+    printedCoerced wFmt 8 wSchema (ivNo "a" (.named "Float") (some (.float "1.0"))) = some "1" ∧
+    asWritten wSchema (ivNo "b" (.list (.named "Int")) (some (.int 1))) = some "1" ∧
+    printedCoerced wFmt 8 wSchema (ivNo "b" (.list (.named "Int")) (some (.int 1))) = some "[1]" ∧
+    asWritten wSchema (ivNo "c" (.named "In") (some (.obj [("y", .int 2), ("x", .int 1)]))) = some "{y: 2, x: 1}" ∧
+    printedCoerced wFmt 8 wSchema (ivNo "c" (.named "In") (some (.obj [("y", .int 2), ("x", .int 1)]))) = some "{x: 1, y: 2, z: 5}" := by
+  decide
+
+/-- finding `default-value-tab-not-escaped` -/
+theorem default_value_tab_not_escaped :
+    asWritten wSchema (ivNo "t" (.named "String") (some (.str "tab\t!"))) = some "\"tab\t!\"" ∧
+    printedCoerced wFmt 8 wSchema (ivNo "t" (.named "String") (some (.str "tab\t!"))) = some "\"tab\\t!\"" := by
+  decide
+
+/-- the canonical-form guard is not vacuous, and rejects the witnesses above -/
+theorem canonical_guard_witness :
+    canonicalDefault wFmt 8 wSchema (ivNo "k" (.named "Float") (some (.float "1.5"))) = true ∧
+    canonicalDefault wFmt 8 wSchema (ivNo "c" (.named "In") (some (.obj [("x", .int 1), ("y", .int 2), ("z", .int 5)]))) = true ∧
+    canonicalDefault wFmt 8 wSchema (ivNo "a" (.named "Float") (some (.float "1.0"))) = false ∧
+    canonicalDefault wFmt 8 wSchema (ivNo "t" (.named "String") (some (.str "tab\t!"))) = false := by
+  decide
+
+/-- the hypotheses of `introspection_eq_spec` hold for what `Schema::parse_and_validate` builds from a
+    document with distinct type names: the built-in `@deprecated` is there -/
+theorem apollo_schema_deprecated_builtin (user : ISchema) : deprecatedIsBuiltin (apolloSchema user) = true := by
+  simp [deprecatedIsBuiltin, apolloSchema, builtinDirectives, ivNo]
+
+end Full
 
 end Apollo.C24
